@@ -33,7 +33,14 @@ type c03Case struct {
 	NOps int
 }
 
-func (c03) CaseBudget(string) time.Duration { return 900 * time.Second }
+func (c03) CaseBudget(tier string) time.Duration {
+	// measured: the heaviest thorough case needs ~12 min of one worker on an idle machine and
+	// more than 15 under load; a watchdog firing is only ever inconclusive or a reproduced hang
+	if tier == "thorough" {
+		return 3600 * time.Second
+	}
+	return 900 * time.Second
+}
 
 func (c03) Cases(tier string, seed uint64) []core.Case {
 	n := 16
